@@ -418,6 +418,7 @@ impl<F: NttFriendlyFieldElement, S: ParallelSumGadget<F, Mul>> Histogram<F, S> {
         if !length.is_multiple_of(chunk_length) {
             gadget_calls += 1;
         }
+        check_parallel_sum_lengths(chunk_length, gadget_calls)?;
 
         Ok(Self {
             length,
@@ -626,6 +627,7 @@ impl<F: NttFriendlyFieldElement, S: ParallelSumGadget<F, Mul>> MultihotCountVec<
 
         // Gadget calls is ⌈meas_length / chunk_length⌉
         let gadget_calls = meas_length.div_ceil(chunk_length);
+        check_parallel_sum_lengths(chunk_length, gadget_calls)?;
 
         Ok(Self {
             length: num_buckets,
@@ -871,6 +873,7 @@ impl<F: NttFriendlyFieldElement, S: ParallelSumGadget<F, Mul>> SumVec<F, S> {
         if flattened_len % chunk_length != 0 {
             gadget_calls += 1;
         }
+        check_parallel_sum_lengths(chunk_length, gadget_calls)?;
 
         Ok(Self {
             len,
@@ -1003,6 +1006,26 @@ where
     fn output_len(&self) -> usize {
         self.len
     }
+}
+
+/// Check that the proof and verifier lengths of a circuit that calls a `ParallelSum` gadget of the
+/// given chunk length `gadget_calls` times fit in a `usize`.
+pub(crate) fn check_parallel_sum_lengths(
+    chunk_length: usize,
+    gadget_calls: usize,
+) -> Result<(), FlpError> {
+    // The proof length is `chunk_length * 2 + 2 * ((1 + gadget_calls).next_power_of_two() - 1) + 1`
+    // and the verifier length is `2 + chunk_length * 2`.
+    chunk_length
+        .checked_mul(2)
+        .and_then(|arity| {
+            let wire_poly_len = gadget_calls.checked_add(1)?.checked_next_power_of_two()?;
+            arity.checked_add(wire_poly_len.checked_mul(2)?)
+        })
+        .map(|_| ())
+        .ok_or_else(|| {
+            FlpError::InvalidParameter("chunk_length overflows addressable memory".to_string())
+        })
 }
 
 /// Given a vector `data` of field elements which should contain exactly one entry, return the
